@@ -498,7 +498,17 @@ pub fn gen(r: &mut Rng, n: usize) -> Vec<String> {
     let mut out = vec![];
     for k in 0..n {
         // scenario families that matter for the bookkeeping, then free mixtures
-        let family = k % 7;
+        let family = k % 8;
+        if family == 7 {
+            // a piece count that is a multiple of eight (the bitfield has no spare bits), one or two honest peers that have
+            // the last pieces
+            let pl = *r.pick(&[16usize, 100, 16384]);
+            let npieces = *r.pick(&[8usize, 16, 8]);
+            let total = pl * npieces - r.below(pl as u64) as usize;
+            let lens_s = if r.coin() { total.to_string() } else { format!("{},{}", total / 2, total - total / 2) };
+            out.push(format!("e2e {} {} {} {} 0 {}", r.below(1 << 30), pl, lens_s, 1 + r.below(2), r.below(2)));
+            continue;
+        }
         if family == 6 {
             // a slow seeder and late, fast twins (mode 6): 4..5 pieces of several blocks, one twin per piece but the last
             let pl = *r.pick(&[20000usize, 40000]);
